@@ -245,14 +245,19 @@ int main(int argc, char* const* argv)
     }
     char* script_str = nullptr;
     if (pipe_in) {
-        char buf[1024];
-        if (!fgets(buf, 1024, stdin)) {
-            fprintf(stderr, "warning: no input\n");
-            buf[0] = 0; // fgets leaves the buffer untouched at end of file
+        // the script is the first line of stdin, however long it is (a fixed 1023 character buffer silently cut longer scripts)
+        std::string line;
+        int ch;
+        bool got_input = false;
+        while ((ch = fgetc(stdin)) != EOF) {
+            got_input = true;
+            if (ch == '\n') break;
+            line.push_back((char)ch);
         }
-        int len = strlen(buf);
-        while (len > 0 && (buf[len-1] == '\n' || buf[len-1] == '\r')) buf[--len] = 0;
-        script_str = strdup(buf);
+        if (!got_input) fprintf(stderr, "warning: no input\n");
+        while (line.size() > 0 && (line.back() == '\n' || line.back() == '\r')) line.pop_back();
+        // (an embedded NUL ends the text, as it did with the C string buffer)
+        script_str = strdup(line.c_str());
     } else if (ca.l.size() > 0) {
         script_str = strdup(ca.l[0]);
         ca.l.erase(ca.l.begin(), ca.l.begin() + 1);
